@@ -272,7 +272,44 @@ static void run_buffers(uint64_t idx, pv_rng* rng) {
     free(heap);
 }
 
+/* ---------------------------------------------------------------- arbitrary strings and buffers while other threads feed theirs */
+static bool conc_iter(pv_rng* r, int iter, void* user, char* err, size_t errsz) {
+    (void)iter; (void)user;
+    pv_mseed m; pv_gen_mseed(r, 3, true, &m);
+    pv_mlang* L; do { L = &pv_langs[pv_randn(r, (uint32_t)pv_nlangs)]; } while (!L->lib || (!strncmp(L->key, "zh", 2) && pv_randn(r, 4)));
+    unsigned coin = pv_gen_coin(r);
+    char raw[4096]; pv_m_encode(&m, L, coin, raw, 2048);
+    size_t n = strlen(raw); uint32_t kind = pv_randn(r, 4);
+    if (kind == 1) for (int e = 0; e < 3; ++e) raw[pv_randn(r, (uint32_t)n)] = (char)pv_rand64(r);            /* byte edits */
+    if (kind == 2) { size_t want = POLYSEED_STR_SIZE - 4 + pv_randn(r, 8); while (n < want) raw[n++] = (char)(pv_randn(r, 5) ? 'a' + pv_randn(r, 26) : 0xc3), raw[n] = 0; for (size_t i = 0; i + 1 < n; ++i) if ((unsigned char)raw[i] == 0xc3 && (unsigned char)raw[i + 1] < 0x80) raw[i] = 'z'; if ((unsigned char)raw[n - 1] == 0xc3) raw[n - 1] = 'z'; }
+    for (size_t i = 0; i < n; ++i) if (!raw[i]) raw[i] = ' ';
+    char* in = pv_exact_str(raw); char* keep = pv_exact_str(raw);
+    bool ok = true; int live0 = pv_ledger_live();
+    polyseed_data* s = NULL; const polyseed_lang* lo = NULL;
+    int st = pv_randn(r, 2) ? pv_api_decode(in, coin, &lo, &s) : pv_api_decode_explicit(in, coin, L->lib, &s);
+    if (!in_set(st, SET_DECODE, 7)) { ok = false; snprintf(err, errsz, "status %d outside the documented set", st); }
+    if (strcmp(in, keep)) { ok = false; snprintf(err, errsz, "the input string was modified"); }
+    if (st != POLYSEED_OK && pv_ledger_live() != live0) { ok = false; snprintf(err, errsz, "failed decode (%s) left %d block(s) allocated", pv_status_name(st), pv_ledger_live() - live0); pv_ledger_reclaim(live0); }
+    if (kind == 0 && st != POLYSEED_OK && st != POLYSEED_ERR_MULT_LANG) { ok = false; snprintf(err, errsz, "valid %s phrase -> %s", L->name_en, pv_status_name(st)); }
+    if (st == POLYSEED_OK) {
+        if (kind == 0) { const char* mm = pv_seed_mismatch(s, &m, coin); if (mm) { ok = false; snprintf(err, errsz, "%s", mm); } }
+        pv_api_crypt(s, in);                            /* the same string as a password */
+        uint8_t img[32]; pv_api_store(s, img); if (img[28] & 0xc0) { ok = false; snprintf(err, errsz, "seed not canonical after crypt"); }
+        pv_api_free(s);
+    }
+    free(in); free(keep);
+    return ok;
+}
+static uint64_t n_conc(void) { return pv_scaled(3, 100); }
+static void run_conc(uint64_t idx, pv_rng* rng) {
+    (void)idx;
+    enum { NT = 8, IT = 1500 }; static pv_conc_result res[NT];
+    uint64_t seed = pv_rand64(rng);
+    pv_concurrent(NT, IT, seed, 35, conc_iter, NULL, res);
+    if (pv_concurrent_verdict(res, NT, IT, "C14/misbehaves-under-concurrency", "concurrent.calls_well_behaved")) PV_DISTINCT("nontrivial", seed);
+}
+
 int main(int argc, char** argv) {
-    static const pv_section secs[] = { { "phrases", n_phrases, run_phrases }, { "flood", n_flood, run_flood }, { "huge", n_huge, run_huge }, { "smallstack", n_small, run_small }, { "passwords", n_passwords, run_passwords }, { "buffers", n_buffers, run_buffers } };
-    return pv_main(argc, argv, "C14", secs, 6, init, NULL);
+    static const pv_section secs[] = { { "phrases", n_phrases, run_phrases }, { "flood", n_flood, run_flood }, { "huge", n_huge, run_huge }, { "smallstack", n_small, run_small }, { "passwords", n_passwords, run_passwords }, { "buffers", n_buffers, run_buffers }, { "concurrent", n_conc, run_conc } };
+    return pv_main(argc, argv, "C14", secs, 7, init, NULL);
 }
